@@ -159,6 +159,9 @@ def fuse_case(calls_a, calls_b, predname, handids=False):
         return {"err": type(e).__name__ + ": " + str(e)[:80]}
     sf = list(fused.phases["p0"].statements)
     ea, eb, ef = [export(s) for s in sa], [export(s) for s in sb], [export(s) for s in sf]
+    # the two method descriptions handed in, as they are AFTER the call (fusing must not change its arguments)
+    after = [[export(s) for s in d.phases["p0"].statements] if set(d.phases) == {"p0"} else [{"id": "<phases changed>"}]
+             for d in (da, db)]
     # witness: A by id, B by position among the rest
     pos_by_id = {}
     for k, s in enumerate(ef):
@@ -169,9 +172,56 @@ def fuse_case(calls_a, calls_b, predname, handids=False):
     names = set()
     for s in ea + eb + ef:
         names.update(s["names"])
-    return {"a": ea, "b": eb, "fused": ef, "wa": wa, "wb": wb, "pred": tag,
+    return {"a": ea, "b": eb, "fused": ef, "wa": wa, "wb": wb, "pred": tag, "a_after": after[0], "b_after": after[1],
             "persistent": sorted(n for n in names if progs.is_persistent(n)),
             "fused_stmts": sf, "na": len(sa)}
+
+
+def multiphase_cases(calls_a, calls_b, shape):
+    """Methods with a second phase 'rest' that is empty / non-empty / absent in either method (shape = (a, b) with each
+    in {"absent", "empty", "full"}).  One Fuse case per phase of the result; a missing phase is an error case."""
+    from dagrt.language import DAGCode, ExecutionPhase
+    from dagrt.transform import fuse_two_dags
+    from .gen import C, V, assign
+
+    def method(calls, rest, tag):
+        cb, _ = progs.replay_calls("p0", calls)
+        phases = {"p0": ExecutionPhase(name="p0", next_phase="p0", statements=list(cb.statements))}
+        if rest != "absent":
+            st = []
+            if rest == "full":
+                cbr, _ = progs.replay_calls("rest", [assign("a", C(1)), assign("<p>r" + tag, V("a"))])
+                st = list(cbr.statements)
+            phases["rest"] = ExecutionPhase(name="rest", next_phase="p0", statements=st)
+        return DAGCode(phases, "p0")
+    da, db = method(calls_a, shape[0], "a"), method(calls_b, shape[1], "b")
+    before = {n: (list(da.phases[n].statements) if n in da.phases else [], list(db.phases[n].statements) if n in db.phases else [])
+              for n in set(da.phases) | set(db.phases)}
+    try:
+        fused = fuse_two_dags(da, db)
+    except Exception as e:
+        return [{"err": type(e).__name__ + ": " + str(e)[:80]}]
+    out = []
+    for n, (sa, sb) in sorted(before.items()):
+        ph = fused.phases.get(n)
+        if ph is None or not hasattr(ph, "statements"):
+            out.append({"err": "phase %s of the fused method is %r (%s/%s)" % (n, ph, shape[0], shape[1])})
+            continue
+        sf = list(ph.statements)
+        ea, eb, ef = [export(x) for x in sa], [export(x) for x in sb], [export(x) for x in sf]
+        pos_by_id = {}
+        for k, x in enumerate(ef):
+            pos_by_id.setdefault(x["id"], k + 1)
+        wa = [pos_by_id.get(x["id"], 0) for x in ea]
+        rest = [k + 1 for k in range(len(ef)) if (k + 1) not in wa]
+        wb = rest[:len(eb)] + [0] * max(0, len(eb) - len(rest))
+        names = set()
+        for x in ea + eb + ef:
+            names.update(x["names"])
+        out.append({"a": ea, "b": eb, "fused": ef, "wa": wa, "wb": wb, "pred": ["default"], "a_after": ea, "b_after": eb,
+                    "persistent": sorted(x for x in names if progs.is_persistent(x)), "fused_stmts": sf, "na": len(sa),
+                    "handids": True, "multiphase": [n, list(shape)]})
+    return out
 
 
 def dynamic_case(fc):
@@ -235,8 +285,21 @@ def run(chk):
         fc["handids"] = (k_ % 3 == 1)
         cases.append(fc)
         meta.append((a, b, pn))
+    # several phases: a phase that only one method has, with and without statements
+    shapes = [(x, y) for x in ("absent", "empty", "full") for y in ("absent", "empty", "full") if (x, y) != ("absent", "absent")]
+    small = [p for p in pool if 1 <= len(p) <= 3]
+    for shape in shapes:
+        for _ in range(6 if chk.quick else 120):
+            a, b = rng.choice(small), rng.choice(small)
+            for fc in multiphase_cases(a, b, shape):
+                if "err" in fc:
+                    chk.violation("C16:fuse-raised:%s" % fc["err"].split(":")[0].split(" ")[0], "fuse_two_dags on two-phase methods (%s): %s; [%s] + [%s]"
+                                  % (shape, fc["err"], progs.show_prog(a), progs.show_prog(b)), {"a": a, "b": b, "pred": "default", "shape": list(shape)})
+                    continue
+                cases.append(fc)
+                meta.append((a, b, "default"))
     chk.stage("fuse")
-    tl = [{k: c[k] for k in ("a", "b", "fused", "wa", "wb", "pred", "persistent")} for c in cases]
+    tl = [{k: c[k] for k in ("a", "b", "fused", "wa", "wb", "pred", "persistent", "a_after", "b_after")} for c in cases]
     out = tlc.judge_batch("Fuse", tl, chunk=2500, chk=chk)
     bad = {}
     for t in out["BAD"]:
@@ -302,7 +365,7 @@ def replay(chk, rep):
         res = tlc.run_tlc("SchedGroups", cfg="SchedGroupsStrict", env={"CASES": tlc.write_cases([d])}, workers=1)
         hit = bool(res.violated)
     else:
-        tl = {k: fc[k] for k in ("a", "b", "fused", "wa", "wb", "pred", "persistent")}
+        tl = {k: fc[k] for k in ("a", "b", "fused", "wa", "wb", "pred", "persistent", "a_after", "b_after")}
         res = tlc.run_tlc("Fuse", cfg="FuseStrict", env={"CASES": tlc.write_cases([tl])}, workers=1)
         hit = bool(res.violated)
         print("TLC:", res.violated or "accepted")
